@@ -98,6 +98,11 @@ def sources(tier, seed, ctx):
     for mode in MODES:
         for n, m, big in [(18, 1, False), (20, 1, True), (1, 21, False)] + ([] if tier == 'quick' else [(33, 1, True), (1, 40, False)]):
             srcs.append({'fn': 'mul', 'n': n, 'm': m, 'mode': mode, 'big': big, 'gen': True, 'host': None})
+    # operands that contain constant gates of the host (a multiplier may skip their partial products - the result still has
+    # every weight level): explicit operand lists over a host with a constant-false and a constant-true gate
+    for mode in MODES:
+        for j, (pa, pb) in enumerate([(['x0', 'k0', 'k0', 'x1'], ['y0']), (['k0', 'x0', 'x1'], ['y0', 'y1']), (['x0', 'k1', 'k0'], ['k0', 'y0']), (['k0'], ['y0', 'y1', 'k1'])]):
+            srcs.append({'fn': 'mul', 'n': len(pa), 'm': len(pb), 'mode': mode, 'big': bool(j % 2), 'gen': False, 'host': {'consts': True, 'a': pa, 'b': pb}})
     # Karatsuba splits: the narrow operand next to half of the wide one (n odd / even, m = floor(n/2), ceil(n/2), +1), both ways
     # round - the shapes in which a shortcut for a "narrow second operand" would have to tell the halves apart
     for n in ([21, 24, 25] if tier == 'quick' else [19, 20, 21, 22, 23, 24, 25, 27, 33]):
